@@ -2,6 +2,7 @@ package rules
 
 import (
 	"go/ast"
+	"go/constant"
 	"go/types"
 	"strings"
 
@@ -13,7 +14,7 @@ func init() {
 		jsonSinkRule("C03.escape", "an example (exampleBuilder)", func(pkgRel, fn string) bool {
 			return pkgRel == "notations/jschema" && strings.Contains(fn, "exampleBuilder")
 		}, 4),
-		c03literal, c03order, c03subset, c03unquote)
+		c03literal, c03order, c03subset, c03unquote, trimQuoteRule("C03.trimquote"))
 }
 
 func c03literal(c *core.Ctx) {
@@ -236,4 +237,34 @@ func c03unquoteAs(c *core.Ctx, R string) {
 		}
 	}
 	c.Extra["exhaustive"] = true
+}
+
+// trimQuoteRule: quotes are removed one pair at a time.
+func trimQuoteRule(R string) RuleFunc {
+	return func(c *core.Ctx) {
+		c.Rule(R, "no call of bytes.Trim / strings.Trim (or TrimLeft/TrimRight) with a cutset that contains the double quote is applied to JSON text in the model, example and OpenAPI packages: Trim removes EVERY leading and trailing byte of the cutset, so the escaped quote of a string that ends in `\\\"` is eaten together with the delimiter and the result is no longer JSON (`{\"5\\\":1}`)")
+		c.Floor(R, 1)
+		n := 0
+		for _, cs := range c.P.Calls() {
+			name := core.FullName(core.Callee(cs.Pkg, cs.Call))
+			switch name {
+			case "bytes.Trim", "strings.Trim", "bytes.TrimRight", "strings.TrimRight", "bytes.TrimLeft", "strings.TrimLeft":
+			default:
+				continue
+			}
+			if len(cs.Call.Args) != 2 {
+				continue
+			}
+			v := core.ConstOf(cs.Pkg, cs.Call.Args[1])
+			if v == nil || v.Kind() != constant.String || !strings.Contains(constant.StringVal(v), `"`) {
+				continue
+			}
+			n++
+			fn := core.DeclName(cs.Pkg, cs.Decl)
+			c.Bad(R, fn+":"+name, c.P.Pos(cs.Call.Pos()), name+"("+core.ExprStr(cs.Call.Args[0])+", "+core.ExprStr(cs.Call.Args[1])+") in "+fn, "all quotes at the ends are removed, including an escaped one that belongs to the string")
+		}
+		if n == 0 {
+			c.OK(R, "no-quote-trim", "-", "no Trim with a quote cutset in scope")
+		}
+	}
 }
